@@ -79,6 +79,7 @@ pub fn main_with(reg: Registry, extra: serde_json::Map<String, serde_json::Value
             }
         }
     }
+    start_watchdog(&args.property, args.tier, false);
     match args.property.as_str() {
         "C01" => c01::run(&ctx, &reg),
         "C02" => c02::run(&ctx, &reg),
@@ -98,4 +99,43 @@ pub fn main_with(reg: Registry, extra: serde_json::Map<String, serde_json::Value
             2
         }
     }
+}
+
+
+/// Non-termination watchdog (monitor::watch): a worker that spends `LIMIT` seconds of its own CPU time inside ONE
+/// monitored call will not return. For C12 (and for the direct checks, whose function under test then never produces
+/// the specified answer) that is a violation; every other check ends INCONCLUSIVE instead of hanging.
+pub fn start_watchdog(property: &str, tier: Tier, own_violation: bool) {
+    const LIMIT: u64 = 20;
+    let prop = property.to_string();
+    monitor::watch::start(
+        LIMIT,
+        Box::new(move |context, secs| {
+            if prop == "C12" || own_violation {
+                let ctx = Ctx::new(&prop, tier);
+                let mut acc = vcore::evidence::Acc::new();
+                acc.eval();
+                acc.nontrivial(&("did-not-return", context));
+                acc.violation(
+                    format!("{prop}/did-not-return"),
+                    "a call did not return",
+                    serde_json::json!({"context": context, "cpu_seconds_inside_one_call": secs, "limit_cpu_seconds": LIMIT,
+                        "note": "per-thread CPU time inside one monitored call, read from /proc; the rest of the workload was abandoned"}),
+                );
+                let code = ctx.finish(
+                    acc,
+                    vcore::evidence::Finish {
+                        level: "exploration",
+                        rule: format!("watchdog: one monitored call consumed {secs} s of its thread's CPU time without returning (limit {LIMIT} s; a call normally takes microseconds). The run was ended at that point; only this observation is reported."),
+                        exhaustive: false,
+                        assumptions: vec!["per-thread CPU time, not wall-clock: a loaded machine cannot trip the watchdog".into()],
+                    },
+                );
+                std::process::exit(if code == 0 { 1 } else { code });
+            } else {
+                println!("INCONCLUSIVE property={prop} reason=a monitored call consumed {secs} s of CPU time without returning (non-termination is reported by C12); context: {}", context.chars().take(400).collect::<String>());
+                std::process::exit(2);
+            }
+        }),
+    );
 }
